@@ -545,12 +545,12 @@ Proof.
   unfold iclamp01, clamp01. destruct (v <? 0); [exact R0|]. destruct (1 <? v); [exact R1|exact R].
 Qed.
 
-Theorem icompare_typed t a b : in_range t a -> in_range t b ->
+Theorem icompare_typed t a b :
   icompare t a b = match a ?= b with Lt => -1 | Eq => 0 | Gt => 1 end /\
   (iless t a b = true <-> a < b) /\
   (icompare t a b = 0 <-> a = b) /\ (icompare t a b = -1 <-> a < b) /\ (icompare t a b = 1 <-> b < a).
 Proof.
-  intros _ _. destruct (icompare_less_correct t a b) as [E L]. split; [exact E|]. split; [exact L|].
+  destruct (icompare_less_correct t a b) as [E L]. split; [exact E|]. split; [exact L|].
   rewrite E. destruct (Z.compare_spec a b); repeat split; intros; try lia; try discriminate.
 Qed.
 
